@@ -155,12 +155,28 @@ TaskOrder(es, seen) == IF es = <<>> THEN <<>>
 RECURSIVE ByTask(_, _)
 ByTask(tasks, es) == IF tasks = <<>> THEN <<>>
                      ELSE SelectSeq(es, LAMBDA n : n[2] = Head(tasks)) \o ByTask(Tail(tasks), es)
-(* with evolutions only there is a single EVOLUTIONS batch *)
+(* As repaired (f0a63a3): when the order puts another task's evolution between two evolutions of
+   one task, the run of evolutions is cut there - everything from the second one on goes into
+   further batches - so that a batch, which executes one task at a time, never reorders them.
+   As found there was one batch for the whole run (SplitInterleaved = FALSE). *)
+SplitInterleaved == TRUE
+RECURSIVE Segments(_, _, _)
+Segments(es, cur, acc) ==
+    IF es = <<>> THEN Append(acc, cur)
+    ELSE LET n == Head(es)
+             prevT == IF cur = <<>> THEN 0 ELSE cur[Len(cur)][2]
+         IN IF SplitInterleaved /\ n[2] # prevT /\ (\E i \in 1..Len(cur) : cur[i][2] = n[2])
+            THEN Segments(Tail(es), <<n>>, Append(acc, cur))
+            ELSE Segments(Tail(es), Append(cur, n), acc)
+RECURSIVE RunSegments(_)
+RunSegments(segs) == IF segs = <<>> THEN <<>>
+                     ELSE ByTask(TaskOrder(Head(segs), {}), Head(segs)) \o RunSegments(Tail(segs))
+(* with evolutions only there is a single run of EVOLUTIONS batches *)
 ExecOf(result) ==
     LET units == SelectSeq(result, LAMBDA n : n[1] \in {"model", "evo"})
         models == SelectSeq(units, LAMBDA n : n[1] = "model")
         evos == SelectSeq(units, LAMBDA n : n[1] = "evo")
-    IN models \o ByTask(TaskOrder(evos, {}), evos)
+    IN models \o RunSegments(Segments(evos, <<>>, <<>>))
 
 (* projects sampled by the harness beyond the exhaustive bound *)
 FileCfgs == JsonDeserialize(IOEnv.CFG_FILE)
